@@ -1,12 +1,15 @@
 // Command c09 ties the Gallina model of CardWire.v to the Go code, in two stages.
 //
 // (a) client: the real carddav.Client.QueryAddressBook / MultiGetAddressBook with a
-//     capturing webdav.HTTPClient; the body is parsed into a namespace-expanded tree.
-//     line: (client (us (<path> <escaped>)...) <input>) (err)|(body <tree>)|(bad <why>)
+//
+//	capturing webdav.HTTPClient; the body is parsed into a namespace-expanded tree.
+//	line: (client (us (<path> <escaped>)...) <input>) (err)|(body <tree>)|(bad <why>)
+//
 // (b) server: documents from the harness's own RFC 6352 writer (writer.go), in seeded
-//     lexical variants, sent as REPORT to the real carddav.Handler with a recording
-//     backend.
-//     line: (server <path> <seed> (up ...) <raw request> <tree>) (obs <panic> <status> <call>...)
+//
+//	lexical variants, sent as REPORT to the real carddav.Handler with a recording
+//	backend.
+//	line: (server <path> <seed> (up ...) <raw request> <tree>) (obs <panic> <status> <call>...)
 //
 // Formats: oracle/c09/main.ml.
 package main
@@ -25,16 +28,37 @@ import (
 )
 
 type job struct {
-	client *clientInput
-	server *xReq
-	seed   uint64
+	client  *clientInput
+	server  *xReq
+	seed    uint64
+	cseq    []*clientInput // a sequence of calls on one client
+	cmode   string         // "same" | "shared"
+	sseq    []serverStep   // a sequence of requests to one handler
+	overlap bool           // ... served all at once
 }
 
-func run(j job) string {
-	if j.client != nil {
-		return hx.L("client", usTable(j.client), j.client.sx()) + " " + observeClient(j.client)
+func run(j job, put func(string)) {
+	switch {
+	case j.cseq != nil:
+		for _, l := range execClientSeq(j.cseq, j.cmode) {
+			put(l)
+		}
+	case j.sseq != nil:
+		for _, l := range execServerSeq(j.sseq, j.overlap) {
+			put(l)
+		}
+	case j.client != nil:
+		put(execClientSeq([]*clientInput{j.client}, "")[0])
+	default:
+		put(execServer(j.server, j.seed))
 	}
-	return execServer(j.server, j.seed)
+}
+
+func stripMut(x hx.Sx) hx.Sx {
+	if x.Head() == "mut" {
+		return x.Args()[0]
+	}
+	return x
 }
 
 func main() {
@@ -45,18 +69,38 @@ func main() {
 	defer sink.Close()
 
 	if *replay != "" {
+		warmUp()
 		for _, l := range hx.ReadLines(*replay) {
 			in := hx.MustParse(l)[0]
 			a := in.Args()
 			switch in.Head() {
 			case "client":
-				sink.Put(run(job{client: parseClientInput(a[1])}))
-			case "server":
-				xr := a[3]
-				if xr.Head() == "mut" {
-					xr = xr.Args()[0]
+				// the earlier calls of the sequence are made again, on the same client
+				var steps []*clientInput
+				mode := ""
+				if len(a) > 2 {
+					h := a[2].Args()
+					mode = h[0].Atom
+					for _, p := range h[1:] {
+						steps = append(steps, parseClientInput(p))
+					}
 				}
-				sink.Put(run(job{server: parseXReq(xr), seed: uint64(a[1].Int())}))
+				steps = append(steps, parseClientInput(a[1]))
+				lines := execClientSeq(steps, mode)
+				sink.Put(lines[len(lines)-1])
+			case "server":
+				// ... and the earlier (or overlapping) requests are served again by the same handler
+				var steps []serverStep
+				overlap := false
+				if len(a) > 5 {
+					overlap = a[5].Head() == "overlap"
+					for _, p := range a[5].Args() {
+						steps = append(steps, serverStep{parseXReq(stripMut(p.List[1])), uint64(p.List[0].Int())})
+					}
+				}
+				steps = append(steps, serverStep{parseXReq(stripMut(a[3])), uint64(a[1].Int())})
+				lines := execServerSeq(steps, overlap)
+				sink.Put(lines[len(lines)-1])
 			}
 		}
 		return
@@ -73,7 +117,7 @@ func main() {
 		go func() {
 			defer wg.Done()
 			for j := range jobs {
-				sink.Put(run(j))
+				run(j, sink.Put)
 			}
 		}()
 	}
@@ -81,6 +125,7 @@ func main() {
 	rng := hx.NewRand(hx.Seed())
 	genClient(jobs, rng.Fork(1), thorough)
 	genServer(jobs, rng.Fork(2), thorough)
+	genAudit(jobs, rng.Fork(3), thorough)
 	close(jobs)
 	wg.Wait()
 	fmt.Fprintf(os.Stderr, "c09: %d cases\n", sink.N)
